@@ -131,6 +131,7 @@ class HistActor(object):
         self.in_commit = False
 
     pending_commit = None
+    last_outcome = None
 
     def apply_pending_commit(self):
         """The model's commit point: called at the TOC rename (schedule-
@@ -354,6 +355,7 @@ class HistActor(object):
             self.apply_pending_commit()
             self.w = self.mw = None
             self.commits += 1
+            self.last_outcome = "commit"
             self.last_commit_kind = m
             s.count("commits")
             s.count("commit_" + m)
@@ -377,6 +379,7 @@ class HistActor(object):
                 raise Violation("cancel_raised", "%s raised %s: %s" % (kind, type(e).__name__, e),
                                 sig="cancel_raised:" + exc_sig(e))
             mw.cancel()
+            self.last_outcome = how
             self.w = self.mw = None
             self.failed_in_body = None
             s.count("aborts_" + how)
@@ -390,9 +393,11 @@ class HistActor(object):
         state = {"skip": arg.get("skip", 0)}
         code = getattr(_e, arg.get("errno", "EIO"))
         actor = self
+        task = self.s.k.current
 
         def plan(kind, name):
-            if kind not in ("write", "creat"):
+            if kind not in ("write", "creat") or actor.s.k.current is not task \
+                    or "WRITELOCK" in name:
                 return None
             if state["skip"] > 0:
                 state["skip"] -= 1
